@@ -56,7 +56,15 @@ type client struct {
 }
 
 func dialClient(addr string) (*client, error) {
-	c, err := net.DialTimeout("tcp", addr, 20*time.Second)
+	var c net.Conn
+	var err error
+	for try := 0; try < 100; try++ {
+		c, err = net.DialTimeout("tcp", addr, 20*time.Second)
+		if err == nil || !(strings.Contains(err.Error(), "address already in use") || strings.Contains(err.Error(), "cannot assign requested address")) {
+			break
+		}
+		time.Sleep(time.Duration(20+10*try) * time.Millisecond) // out of ephemeral ports for a moment
+	}
 	if err != nil {
 		return nil, err
 	}
@@ -166,10 +174,16 @@ func dotStuff(msg []byte) []byte {
 
 // freePort asks the kernel for an unused loopback port.
 func freePort() (int, error) {
-	l, err := net.Listen("tcp", "127.0.0.1:0")
-	if err != nil {
-		return 0, err
+	var err error
+	for try := 0; try < 200; try++ {
+		var l net.Listener
+		l, err = net.Listen("tcp", "127.0.0.1:0")
+		if err == nil {
+			defer l.Close()
+			return l.Addr().(*net.TCPAddr).Port, nil
+		}
+		// the sandbox runs many checks at once and can be out of ephemeral ports for a moment
+		time.Sleep(time.Duration(20+10*try) * time.Millisecond)
 	}
-	defer l.Close()
-	return l.Addr().(*net.TCPAddr).Port, nil
+	return 0, err
 }
